@@ -368,7 +368,7 @@ Definition chk_chain_spec (c : (bool * level * list level) * option chain_outcom
 Definition chk_conflict (c : (option dtype * option dtype) * option bool) :=
   opt_bool_eqb (snd c) (match set_data_type (fst (fst c)) (snd (fst c)) with inr _ => true | inl _ => false end).
 """
-REQ = ["MV.Spec.Types", "MV.Model.Validate", "MV.Model.ValidateChain", "MV.Gen.TypeTables", "MV.Proofs.TypesP"]
+REQ = ["MV.Spec.Types", "MV.Model.Validate", "MV.Model.ValidateChain", "MV.Gen.TypeTables", "MV.Model.CodeTables"]
 DIAG_REQ = ["MV.Spec.Types", "MV.Gen.TypeTables"]
 
 
